@@ -38,6 +38,8 @@ type C03Case struct {
 	Common
 	Variant string       `json:"variant"`
 	Remote  bool         `json:"remote,omitempty"`
+	// OldServer (remote runs): the server predates the Teardown / TeardownAndDestroy RPCs, the client falls back to its own helpers
+	OldServer bool `json:"old_server,omitempty"`
 	Pre     []RMWCall    `json:"pre"`
 	Helpers []HelperCall `json:"helpers"`
 	Actors  [][]RMWCall  `json:"actors"`
@@ -69,6 +71,7 @@ func (c03) Gen(seed uint64, tier string) Case {
 	c := &C03Case{Common: Common{Prop: "C03", Seed: seed, Tier: tier}}
 	c.Variant = []string{"inmem+tap", "namespaced+tap"}[r.Intn(2)]
 	c.Remote = remoteAvailable && r.Bool(0.3)
+	c.OldServer = c.Remote && r.Bool(0.4)
 	nids := 1 + r.Pick([]int{3, 1})
 	owner := []string{"", "A"}[r.Pick([]int{3, 1})]
 	for i := 0; i < nids; i++ {
@@ -191,9 +194,15 @@ func (c03) Shrink(cs Case) []Case {
 		n.Pre = dropAt(n.Pre, i)
 		out = append(out, n)
 	}
+	if c.OldServer {
+		n := cloneJSON(c)
+		n.OldServer = false
+		out = append(out, n)
+	}
 	if c.Remote {
 		n := cloneJSON(c)
 		n.Remote = false
+		n.OldServer = false
 		out = append(out, n)
 	}
 	for i := range c.Actors {
@@ -378,7 +387,12 @@ func (c03) Run(t *testing.T, cs Case, trace bool) *Outcome {
 		st := w.St
 		var tr *simTransport
 		if c.Remote {
-			st, tr = remoteState(w.Core, nil, out)
+			var tf *TransportFaults
+			if c.OldServer {
+				tf = &TransportFaults{OldServer: true}
+				out.fault("old-server-unimplemented(run)")
+			}
+			st, tr = remoteState(w.Core, tf, out)
 		}
 		for _, p := range c.Pre {
 			r := NewRes("ns1", TypeA, p.ID, p.Val)
